@@ -10,7 +10,8 @@ open Acra.Lemmas.Ch11Calendar
 
     * the calendar part is exact on 1970…2099: the seconds since the start of the year are `seconds − yearStart`;
     * the result is exactly `S·10^7 + ⌊ns/100⌋` while that value is below 4.5·10^13 — the first 52 days of a year
-      (`S ≤ 4 499 999` for `ns < 10^9`);
+      (`S ≤ 4 499 999` for `ns < 10^9`) — for every such rounding function; and for the executable model (CPython's
+      binary64) while it is below 2^47 (until 11/12 June), which is sharp;
     * beyond, it is NOT exact: the sum `S·10^7 + ns/100` is rounded to the spacing of binary64 at that magnitude
       (1/32 from 2^47, 1/16 from 2^48), so a fraction .99 (from 2^47 ≈ day 163) and .97–.99 (from 2^48 ≈ day 326) is
       rounded UP to the next integer before `int()` truncates: the result is one tick too large (witnesses below,
@@ -54,6 +55,38 @@ theorem to_rtc_exact_exec (seconds ns : ℕ) (h : seconds < 86400 * DAYS)
     (hdom : (seconds - yearStart seconds) * 10000000 + ns / 100 < 45000000000000) :
     toRtc seconds ns = .ok (ideal (seconds - yearStart seconds) ns) :=
   to_rtc_exact Float.rne rne_floatSem seconds ns h hdom
+
+/-- SHARP for the executable model (CPython's binary64, compared bit for bit by the correspondence): exact while the
+    tick count stays below 2^47 — below 2^47 the spacing of binary64 is at most 1/64, so a fraction of at most .99
+    (+ the 2^-27 the division may add) is never rounded up to the next integer.  `ns` is any value a 32-bit
+    nanosecond field can hold.  The first wrong result is just beyond: `to_rtc_off_by_one_witness`. -/
+theorem to_rtc_ticks_exact_exec (S ns : ℕ) (hns : ns < 2 ^ 32)
+    (h : S * 10000000 + ns / 100 + 1 ≤ 2 ^ 47) : ticks Float.rne S ns = S * 10000000 + ns / 100 :=
+  ticks_exact_exec S ns hns (by norm_num at h ⊢; exact h)
+
+/-- second 14 073 748 of a year (11/12 June) with up to 83 552 000 ns is still inside; so is the whole domain of
+    `to_rtc_ticks_exact` -/
+example : (999999999 : ℕ) < 2 ^ 32 ∧ (14073748 : ℕ) * 10000000 + 835532700 / 100 + 1 ≤ 2 ^ 47 ∧
+    (45000000000000 : ℕ) ≤ 2 ^ 47 := by norm_num
+
+theorem to_rtc_exact_exec_sharp (seconds ns : ℕ) (h : seconds < 86400 * DAYS) (hns : ns < 2 ^ 32)
+    (hdom : (seconds - yearStart seconds) * 10000000 + ns / 100 + 1 ≤ 2 ^ 47) :
+    toRtc seconds ns = .ok (ideal (seconds - yearStart seconds) ns) := by
+  have hy := yearStart_le seconds h
+  have hs := since_start_of_year seconds h
+  have hts := Acra.Lemmas.Ch11TimeFmt.fromTimestamp_eq seconds h
+  simp only at hs hts
+  have h53 : seconds - yearStart seconds < 2 ^ 53 := by
+    have h2 : (366 * 86400 : ℕ) < 2 ^ 53 := by norm_num
+    exact Nat.lt_trans hy.2 h2
+  generalize civilFromDays (seconds / 86400 + EPOCH) = c at hs hts
+  unfold toRtc
+  rw [toRtcWith_of_fromTimestamp Float.rne _ _ _ _ _ _ _ _ hts, hs, totalSecondsInt_exact Float.rne rne_floatSem _ h53,
+    ticks_exact_exec _ _ hns (by norm_num at hdom ⊢; exact hdom)]
+
+/-- non-vacuity: 2024-06-11 21:22:28 UTC (second 14 073 748 of 2024), 835 532 700 ns -/
+example : (1718140948 : ℕ) < 86400 * DAYS ∧ (835532700 : ℕ) < 2 ^ 32 ∧
+    (1718140948 - yearStart 1718140948) * 10000000 + 835532700 / 100 + 1 ≤ 2 ^ 47 := by decide +kernel
 
 /-- the start of the year is where the Gregorian calendar puts it, not after the time stamp and less than 366 days
     before it -/
